@@ -4,7 +4,7 @@ exports).  Correspondence: `prog` stream biased to shadowing, re-declaration aft
 closures passed around, user-written iterators that declare colliding names and are consumed by
 every operator, modules."""
 import progprop
-from gen.programs import INT, BOOL, STR, tup, fn, iter_of, arr, cell
+from gen.programs import INT, BOOL, STR, tup, fn, iter_of, arr, cell, multi
 
 THM_MODULES = ["SslModel.Thm.C06"]
 TRANSLATE_PARTS = ["scalar"]
@@ -265,6 +265,19 @@ def templates():
     ]
     for b in bodies:
         T.append([INC, DEC, ("fndecl", "outer", [], INT, b), ("tuple", [("call", V("outer"), []), ("call", V("outer"), [])])])
+    # the binder of `if k: T = e` / `while k: T = e` lives in the body only - also when `e` is known while the enclosing
+    # function is created (a literal, a captured value) and the binder has the name of a PARAMETER read afterwards
+    U2 = multi(INT, STR)
+    inner = ("fn", [("k", INT)], INT, [("set", "bonus", ("mut", INT, I(0))), ("ifset", "k", INT, V("v"), ("block", [("assign", "set", V("bonus"), V("k"))]), None),
+                                        ("return", ("bin", "add", V("k"), ("pre", "deref", V("bonus"))))])
+    T.append([("fndecl", "make", [("v", U2)], fn((INT,), INT), [("return", inner)]),
+              ("tuple", [("call", ("call", V("make"), [I(5)]), [I(100)]), ("call", ("call", V("make"), [("s", "s")]), [I(100)])])])
+    T.append([("fndecl", "f", [("k", INT)], INT, [("ifset", "k", INT, I(7), ("block", [I(0)]), None), ("return", V("k"))]), ("call", V("f"), [I(100)])])
+    T.append([("fndecl", "f", [("k", INT)], INT, [("set", "seen", ("mut", INT, I(0))), ("ifset", "k", INT, I(7), ("block", [("assign", "set", V("seen"), V("k"))]), None),
+                                                   ("set", "g", ("fn", [], INT, [("return", V("k"))])), ("return", ("bin", "add", ("call", V("g"), []), ("pre", "deref", V("seen"))))]),
+              ("call", V("f"), [I(100)])])
+    T.append([("fndecl", "f", [("k", INT)], INT, [("whileset", "k", INT, I(7), ("block", [("break",)])), ("return", V("k"))]), ("call", V("f"), [I(100)])])
+    T.append([("set", "c", I(7)), ("fndecl", "f", [("k", STR)], STR, [("ifset", "k", INT, V("c"), ("block", [I(0)]), ("block", [I(1)])), ("return", V("k"))]), ("call", V("f"), [("s", "outer")])])
     return T
 
 
